@@ -88,7 +88,7 @@ CORE_CLASSES = ['NumType', 'IntType', 'FloatType', 'BoolType', 'StrType', 'ListT
                 'LiteralStr', 'LiteralBool']
 COMPARE_SHAPE = r"""left = self\.visit\(node\.left\)
 comparators = \[self\.visit\(compare\) for compare in node\.comparators\]
-for \(?op, right\)? in zip\(node\.ops, comparators\):
+for \(?op, left, right\)? in zip\(node\.ops, \[left\] \+ comparators, comparators\):
     if isinstance\(op, \(([\w\., ]+)\)\):
         continue
     elif isinstance\(op, \(([\w\., ]+)\)\):
@@ -385,7 +385,21 @@ def correspondence(ctx):
               # dicts whose keys are not literals (tuples) and whose values differ in type: one pair per entry in the pedal type
               '{(1, 2): "a", (3, 4): 5}', '{(1,): [1], (2,): ["s"]}', '[{(): 1, (1,): "x"}]', '({(1, 2): {}, (3, 4): []},)',
               '{(1, 2): "a", (3, 4): "b"}', '{(1, "k"): 1.5, (2, "k"): None, "plain": (1, 2)}'] + [gen_value(rng, 3) for _ in range(300 if ctx.tier == 'quick' else 3000)]
-    res = vlib.run_impl('c19_impl.py', {'cells': cells, 'trees': trees, 'values': values}, timeout=1500)
+    chains = [(o1, a, b, o2, c) for o1 in CMPS for o2 in CMPS for a in CORE for b in CORE for c in CORE]
+    if ctx.tier == 'quick':
+        chains = [ch for i, ch in enumerate(chains) if i % 5 == ctx.seed % 5]
+    res = vlib.run_impl('c19_impl.py', {'cells': cells, 'trees': trees, 'values': values, 'chains': chains}, timeout=1500)
+    # (b') chains: every operator of a chain compares two NEIGHBOURS (a op1 b op2 c means a op1 b and b op2 c), so the chain draws
+    # exactly the incompatible_types issues of its two neighbouring comparisons taken alone (each of which is tied to the model below)
+    for ch, rec in zip(chains, res['chains']):
+        ctx.case(('chain',) + tuple(ch), nontrivial=True)
+        if any(isinstance(x, str) for x in rec):
+            ctx.violation('tifa-raises:chain:%s' % ':'.join(ch), {'chain': ch, 'observed': rec, 'why': 'analysis raised on a comparison chain: %s' % rec})
+        elif rec[2] != rec[0] + rec[1]:
+            ctx.violation('chain:%s' % ':'.join(ch), {'chain': ch, 'observed': rec,
+                          'why': 'a %s b %s c with a: %s, b: %s, c: %s draws %d incompatible_types issue(s); a %s b alone draws %d and b %s c alone draws %d'
+                                 % (ch[0], ch[3], ch[1], ch[2], ch[4], rec[2], ch[0], rec[0], ch[3], rec[1])})
+    ctx.count('comparison-chains=%d' % len(chains))
     # (a) the CPython specification table of the model vs the live interpreter; (b) the model's table vs real TIFA
     spec_items, tifa_items, cmp_spec_items, cmp_items = [], [], [], []
     for (op, a, b), rec in zip(cells, res['cells']):
